@@ -163,7 +163,10 @@ impl Vm {
             let module = self.module(&module_name, &path);
             if let Err(err) = parent_module.insert_module(module) {
               match err {
-                ModuleInsertError::ModuleAlreadyExists => todo!(),
+                // find_missing_module stops at the first segment its parent does not hold
+                ModuleInsertError::ModuleAlreadyExists => {
+                  self.internal_error("Missing module already present in its parent.")
+                },
               }
             }
 
@@ -197,7 +200,11 @@ fn find_missing_module(
     return (module, (&[], &[]));
   }
 
-  match module.get_module(path[0]) {
+  if index >= path.len() {
+    return (module, path.split_at(path.len()));
+  }
+
+  match module.get_module(path[index]) {
     Some(module) => find_missing_module(module, path, index + 1),
     None => (module, path.split_at(index)),
   }
